@@ -226,6 +226,7 @@ func (ex *Explorer) Run() {
 // ---------------------------------------------------------------- Path
 
 type Path struct {
+	allocBytes int64 // bytes allocated by make/new/append growth of interpreted code (vAllocated)
 	ex  *Explorer
 	w   *Worker
 	ts  *TermStore
